@@ -220,6 +220,50 @@ CHECKS = {
         'DESIGN.md 3 C11'),
 }
 
+# what the mutation and bug-hunting campaigns added to each check after the texts above were written
+ADDED = {
+    'C01': ' Also: merge keys and both spellings of a key among the mutations, scalar short forms, underscore-prefixed '
+           'parameters, user classes named Path.',
+    'C02': ' Also: merge keys, both spellings of a key, collections with an ambiguous and an unrecognisable item in either '
+           'order, scalar short forms, extras declared mid-signature, mix-in enums; the reference models PyYAML\'s merge '
+           'flattening below Any.',
+    'C03': ' Also: a slice of the four-class shapes in the quick tier, three five-class diamond shapes under all 120 orders, '
+           'explicit class tags on enum / string-like scalars.',
+    'C04': ' Also: underscore-prefixed parameters.',
+    'C05': ' Also: a grammar of number-like spellings with every leading digit, inverse pairs with non-str keys, paths with '
+           '~ and .., empty collections vs None defaults, defaulted extras declared first, shared objects with node-replacing '
+           'and restructuring sweeteners, one datetime with a sub-minute UTC offset (open known finding).',
+    'C06': ' Also: extras declared mid-signature, mix-in enums, inherited _yatiml_attributes, objects ending in a leaf that '
+           'recurs, non-idempotent inherited sweeteners, sweeteners writing every scalar kind (floats incl. inf/nan) through '
+           'the Node helpers, shared objects with node-replacing and restructuring sweeteners.',
+    'C07': ' Also: the string families through dump_json to a stream, per-occurrence check of the ensure_ascii=False clause, '
+           'keys around PyYAML\'s 1024-character implicit-key limit (open known finding).',
+    'C08': ' Also: 30 models whose hooks read attribute values (require_attribute_value, get_value, has_attribute_type, '
+           'remove_attributes_with_default_values) or restructure them behind a permissive recogniser, each on every nasty '
+           'scalar and shape.',
+    'C09': ' Also: character categories (\\d \\s \\w) are translated exactly, so non-ASCII digits are covered; a sign on '
+           '.nan is not accepted.',
+    'C10': ' Also: same-named unregistered mix-ins, the deprecated Dumper route with classes registered in two steps, the '
+           'sweeten rule for string-like classes and enums on dumping.',
+    'C11': ' Also: eight load functions (several over one class set with different result types), a mid-dump JSON failure, '
+           'class sets with node-replacing and default-value sweeteners, distinct objects per thread in the dump programs, '
+           'deep snapshot of the user\'s classes.',
+    'C12': ' Also: UTF-16 / UTF-8-BOM binary sources, byte-level documents (invalid UTF-8, CR/CRLF with errors) through '
+           'BytesIO, binary file and Path, every fixed string through every dump variant and sink, pre-filled target files, '
+           'a sub-process under a non-UTF-8 locale.',
+    'C13': ' Also: single-class models, both spellings of a key, merge keys; dicts are compared unordered under key '
+           'permutation.',
+    'C14': ' Also: initial nodes composed from text (marks, a value shared by two keys, kind/tag mismatches), overrides of '
+           'non-None defaults incl. by None, a defaulted _yatiml_extra before the defaulted parameters, empty collections '
+           'against defaults of the same and the other kind.',
+    'C15': ' Also: the full form (item already has its key attribute) is inside the domain of map_attribute_to_index.',
+    'C16': ' Also: near-miss keys (dashed / underscored / case), nodes whose kind and core tag disagree.',
+    'C17': ' Also: near-miss enum members, numeric and duplicated added keys, Union-with-collection and Union-of-classes '
+           'positions, classes with eight and more parameters, four-class hierarchies in the quick tier.',
+    'C18': ' Also: nested sharing, every aliased and cyclic document additionally read as a one-document stream (Loader.'
+           'get_node), cyclic documents with 4-60 shared levels under a time limit.',
+}
+
 NOT_BUILT = {}
 
 
@@ -239,7 +283,7 @@ def main():
                 'evidence_file': 'evidence/%s.json' % pid,
                 'replay_cmd_template': './check %s --replay {path}' % pid,
                 'engine': 'mc',
-                'level_claimed': {'category': 'model_checking', 'text': text, 'design_ref': ref},
+                'level_claimed': {'category': 'model_checking', 'text': text + ADDED.get(pid, ''), 'design_ref': ref},
                 'level_note': note,
                 'technique': tech,
             })
